@@ -22,12 +22,14 @@ pub struct Scenario {
     pub forced: Vec<(u64, u64)>,
     /// also run the suffix twice on the real binary (two real key draws) and compare
     pub real_binary: bool,
+    /// step cap per search (0 = the default of 4 million nodes)
+    pub node_cap: u64,
 }
 
 impl Scenario {
     pub fn to_json(&self) -> Value {
         json!({"prefix": self.prefix, "suffix": self.suffix, "key_seeds": self.key_seeds,
-            "forced": self.forced.iter().map(|(a, b)| json!([a, b])).collect::<Vec<_>>(), "real_binary": self.real_binary})
+            "forced": self.forced.iter().map(|(a, b)| json!([a, b])).collect::<Vec<_>>(), "real_binary": self.real_binary, "node_cap": self.node_cap})
     }
     pub fn from_json(v: &Value) -> Option<Scenario> {
         let strs = |x: &Value| -> Vec<String> { x.as_array().map(|a| a.iter().map(|s| s.as_str().unwrap_or("").to_string()).collect()).unwrap_or_default() };
@@ -37,14 +39,15 @@ impl Scenario {
             key_seeds: v["key_seeds"].as_array()?.iter().filter_map(|x| x.as_u64()).collect(),
             forced: v["forced"].as_array().map(|a| a.iter().filter_map(|p| Some((p[0].as_u64()?, p[1].as_u64()?))).collect()).unwrap_or_default(),
             real_binary: v["real_binary"].as_bool().unwrap_or(false),
+            node_cap: v["node_cap"].as_u64().unwrap_or(0),
         })
     }
 }
 
-fn sim_state(key_seed: u64, forced: &[(u64, u64)]) -> SimState {
+fn sim_state(key_seed: u64, forced: &[(u64, u64)], node_cap: u64) -> SimState {
     let mut st = SimState::new(key_seed, 0);
     st.clock.forced_expiry = forced.to_vec();
-    st.max_nodes_per_search = 4_000_000;
+    st.max_nodes_per_search = if node_cap == 0 { 4_000_000 } else { node_cap };
     // key seed deliberately not logged: the event logs of the twin runs are compared
     st.ev("cfg c13");
     st
@@ -99,7 +102,7 @@ pub fn run_scenario(sc: &Scenario) -> Judged {
     let prefix_clocked = sc.prefix.iter().any(|l| l.starts_with("go") && !l.starts_with("go depth"));
     let mut reference: Option<(Vec<String>, Vec<String>)> = None; // (whole, suffix part)
     for (k, ks) in sc.key_seeds.iter().enumerate() {
-        let rep = run_script(sim_state(*ks, &sc.forced), full.clone());
+        let rep = run_script(sim_state(*ks, &sc.forced, sc.node_cap), full.clone());
         j.evaluations += 1;
         {
             let st = rep.st.borrow();
@@ -155,7 +158,7 @@ pub fn run_scenario(sc: &Scenario) -> Judged {
         let mut alone = sc.suffix.clone();
         alone.push("quit".into());
         let ks = sc.key_seeds.first().copied().unwrap_or(0) ^ 0x1234_5678_9abc_def0;
-        let rep = run_script(sim_state(ks, &[]), alone);
+        let rep = run_script(sim_state(ks, &[], sc.node_cap), alone);
         j.evaluations += 1;
         j.log_hash = fnv1a(j.log_hash, &rep.st.borrow().log_hash.to_le_bytes());
         j.probes.add("restart_comparisons", 1);
@@ -260,6 +263,31 @@ fn gen_game_lines(rng: &mut Rng, clocked: bool, out: &mut Vec<String>, forced: &
     (root, ms, last)
 }
 
+/// Two depth-7 searches in one game without ucinewgame (several million nodes, a table of
+/// more than a hundred thousand entries): whatever an engine does once its tables are
+/// large or full must not depend on the key draw or the hasher state.
+pub fn generate_huge(seed: u64) -> Scenario {
+    let mut rng = Rng::new(seed);
+    // an open position (the searches are several times larger than from the start position)
+    let open = *rng.pick(&["e2e4 e7e5", "d2d4 d7d5", "e2e4 c7c5", "e2e4 e7e6 d2d4 d7d5", "d2d4 g8f6 c2c4 e7e6"]);
+    let (p0, _) = interpret_position(&format!("position startpos moves {}", open)).unwrap();
+    let (ms, _) = gen::playout(&mut rng, &p0, 2, 0);
+    let m = gen::moves_uci(&ms);
+    Scenario {
+        prefix: vec![],
+        suffix: vec![
+            format!("position startpos moves {}", open),
+            "go depth 7".to_string(),
+            format!("position startpos moves {} {}", open, m.join(" ")),
+            "go depth 7".to_string(),
+        ],
+        key_seeds: vec![rng.next_u64(), rng.next_u64()],
+        forced: vec![],
+        real_binary: false,
+        node_cap: 30_000_000,
+    }
+}
+
 pub fn generate(seed: u64, big: bool) -> Scenario {
     let mut rng = Rng::new(seed);
     let mut prefix = vec![];
@@ -316,7 +344,7 @@ pub fn generate(seed: u64, big: bool) -> Scenario {
                 suffix.push("go depth 5".to_string());
             }
         }
-        return Scenario { prefix, suffix, key_seeds: vec![rng.next_u64(), rng.next_u64(), rng.next_u64()], forced, real_binary: false };
+        return Scenario { prefix, suffix, key_seeds: vec![rng.next_u64(), rng.next_u64(), rng.next_u64()], forced, real_binary: false, node_cap: 0 };
     }
     if let (Some((root, ms, last)), true) = (&last_game, rng.chance(1, 3)) {
         // the game of the prefix goes on after ucinewgame (a GUI that restarts its engine in
@@ -356,6 +384,7 @@ pub fn generate(seed: u64, big: bool) -> Scenario {
         key_seeds: vec![rng.next_u64(), rng.next_u64(), rng.next_u64()],
         forced,
         real_binary: rng.chance(1, 8),
+        node_cap: 0,
     }
 }
 
@@ -451,7 +480,12 @@ pub fn run(ctx: &Ctx) -> i32 {
         let seed = derive(ctx.seed, "C13", i);
         // one sim in forty searches deep (the prefix games stay small)
         let big = i % 40 == 7;
-        let sc = generate(seed, big);
+        // one sim per quick batch (fifteen per thorough batch) is huge
+        let huge = i % 1300 == 3;
+        let sc = if huge { generate_huge(seed) } else { generate(seed, big) };
+        if huge {
+            // (counted below with the probes)
+        }
         let j = run_scenario(&sc);
         let mut res = SimResult::default();
         res.evaluations = j.evaluations;
@@ -465,6 +499,9 @@ pub fn run(ctx: &Ctx) -> i32 {
         }
         if big {
             res.probes.add("large_search_scenarios", 1);
+        }
+        if huge {
+            res.probes.add("huge_scenarios_two_depth7_searches_in_one_game", 1);
         }
         if let (Some(p), Some(q)) = (sc.prefix.iter().rev().find(|l| l.starts_with("position")), sc.suffix.iter().find(|l| l.starts_with("position"))) {
             if q.starts_with(p.as_str()) {
@@ -480,7 +517,7 @@ pub fn run(ctx: &Ctx) -> i32 {
     });
     let ev = Evidence {
         level: "exploration",
-        rule: "One case = one script pair: an adversarial prefix (0-3 games, clock-limited searches interrupted at seeded reads, depth-limited searches, with/without ucinewgame, standard commands the engine ignores such as stop/ponderhit/setoption at seeded places; one game in four has a history with planted repetitions) and a depth-limited suffix (1-2 games, depth 1..4, sometimes a go before any position command, in one case of four the game of the prefix continued after ucinewgame with the same start and move list; one case in forty is a depth 5-6 search of several hundred thousand nodes, half of them followed by three more depth-5 searches along the same game without ucinewgame). Runs: prefix+ucinewgame+suffix under three key seeds (transcripts of info/bestmove lines minus time/nps must be identical; the whole transcript when the prefix has no clocked go, else the part after ucinewgame), and the suffix alone in a fresh process (must equal the part after ucinewgame). One case in eight is also run twice on the real binary (two real key draws) and compared with the simulation. Evaluations = simulated processes; all cases are non-trivial (each contains at least one search).".into(),
+        rule: "One case = one script pair: an adversarial prefix (0-3 games, clock-limited searches interrupted at seeded reads, depth-limited searches, with/without ucinewgame, standard commands the engine ignores such as stop/ponderhit/setoption at seeded places; one game in four has a history with planted repetitions) and a depth-limited suffix (1-2 games, depth 1..4, sometimes a go before any position command, in one case of four the game of the prefix continued after ucinewgame with the same start and move list; one case in forty is a depth 5-6 search of several hundred thousand nodes, half of them followed by three more depth-5 searches along the same game without ucinewgame; one case per 1300 runs two depth-7 searches in one game (millions of nodes, a table of more than 10^5 entries)). Runs: prefix+ucinewgame+suffix under three key seeds (transcripts of info/bestmove lines minus time/nps must be identical; the whole transcript when the prefix has no clocked go, else the part after ucinewgame), and the suffix alone in a fresh process (must equal the part after ucinewgame). One case in eight is also run twice on the real binary (two real key draws) and compared with the simulation. Evaluations = simulated processes; all cases are non-trivial (each contains at least one search).".into(),
         extra: {
             let mut m = serde_json::Map::new();
             m.insert("real_binary_available".into(), json!(real_bin.is_some()));
